@@ -322,10 +322,18 @@ ApplyBlockM(S, in, O, avgMode) ==
              ent |-> AddEnts(S.ent, in.entries, 1),
              bank |-> bankFin, cache |-> cache2,
              snapCur |-> cur2, snapPast |-> past2]
-  IN  [S |-> Sn, iss |-> rIss \cup acc3.iss \cup sIss,
+      \* deviation DevBandErrorSkipsBlock: in [V20, V202) an OPR outside the SPR band makes SyncBlock return
+      \* success right after the grade rows are written: no rates, no transactions, no rewards for this height
+      skipRest == /\ "DevBandErrorSkipsBlock" \in Deviations /\ h >= Act("V20") /\ h < Act("V202")
+                  /\ in.opr.present /\ Len(in.opr.winners) > 0 /\ Len(sprIdx) > 0 /\ ~R.rated
+  IN  IF skipRest THEN [S |-> [S EXCEPT !.bal = b2], iss |-> rIss,
+                        info |-> [taint |-> FALSE, to |-> EmptyFn, pegOut |-> <<>>, sprIdx |-> <<>>, stakers |-> {}, ratedSpec |-> FALSE,
+                                  visited |-> {}, bankRow |-> FALSE, avgs |-> avgs, avgsDiffer |-> FALSE, skipped |-> TRUE]]
+      ELSE
+      [S |-> Sn, iss |-> rIss \cup acc3.iss \cup sIss,
        info |-> [taint |-> acc3.taint \/ stray # {}, to |-> acc3.to, pegOut |-> acc2.pegOut, sprIdx |-> sprIdx,
                  stakers |-> sp.stakers, ratedSpec |-> R.rated, visited |-> acc3.visited, bankRow |-> bankRow,
-                 avgs |-> avgs, avgsDiffer |-> lr > 0 /\ AveragesFromCache(S, cache2) # Averages(S, lr)]]
+                 avgs |-> avgs, avgsDiffer |-> lr > 0 /\ AveragesFromCache(S, cache2) # Averages(S, lr), skipped |-> FALSE]]
 
 ApplyBlock(S, in, O) == ApplyBlockM(S, in, O, "design")
 
